@@ -180,7 +180,8 @@ def run(ctx):
             if bid != exp:
                 ctx.violation("C13/Solution.benchmark_id/wrong-text", "%r expected %r" % (bid, exp), exp)
                 continue
-            if any(m is VehicleModel.KST for m, _, _ in kinds_mtc):
+            if any(m is VehicleModel.KST for m, _, _ in kinds_mtc) and hasattr(CommonRoadSolutionReader, "_parse_benchmark_id") \
+                    and hasattr(CommonRoadSolutionReader, "_parse_vehicle_id"):
                 # KST documents cannot be parsed back when the reader lacks the state class: use the id parser directly
                 vids, cids, sid2 = CommonRoadSolutionReader._parse_benchmark_id(bid)
                 got = [CommonRoadSolutionReader._parse_vehicle_id(v) for v in vids]
